@@ -19,7 +19,7 @@ class Case:
 
 
 class VerdictCrate:
-    def __init__(self, name, features, default_features=True, no_std=False, extra_deps="", with_nvrt=False, nshards=8, crate_attrs="", alloc=True):
+    def __init__(self, name, features, default_features=True, no_std=False, extra_deps="", with_nvrt=False, nshards=8, crate_attrs="", alloc=True, as_dependency=False):
         self.name = name
         self.dir = os.path.join(WORK, name)
         self.features = features
@@ -30,6 +30,7 @@ class VerdictCrate:
         self.nshards = nshards
         self.crate_attrs = crate_attrs
         self.alloc = alloc
+        self.as_dependency = as_dependency   # the case crates are path dependencies of an `app` crate, not workspace members (cargo does not mark them primary)
         self.target = os.path.join(WORK, "target-nostd" if no_std else "target")
         self.ranges = {}
         self.prefix = "v_" + "".join(c if c.isalnum() else "_" for c in name) + "_"
@@ -72,7 +73,14 @@ class VerdictCrate:
             for e in os.listdir(self.dir):
                 if e.startswith("v") and os.path.isdir(os.path.join(self.dir, e, "src")) and e not in members:
                     shutil.rmtree(os.path.join(self.dir, e), ignore_errors=True)
-        ws = '[workspace]\nresolver = "2"\nmembers = [%s]\n\n[profile.dev]\nopt-level = 0\ndebug = 0\nincremental = false\n' % ", ".join('"%s"' % m for m in members)
+        if self.as_dependency:
+            app = self.prefix + "app"
+            write_if_changed(os.path.join(self.dir, app, "src", "lib.rs"), "".join("pub use %s as _%s;\n" % (m, m) for m in members))
+            write_if_changed(os.path.join(self.dir, app, "Cargo.toml"), '[package]\nname = "%s"\nversion = "0.1.0"\nedition = "2021"\n\n[dependencies]\n%s' % (
+                app, "".join('%s = { path = "../%s" }\n' % (m, m) for m in members)))
+            ws = '[workspace]\nresolver = "2"\nmembers = ["%s"]\nexclude = [%s]\n\n[profile.dev]\nopt-level = 0\ndebug = 0\nincremental = false\n' % (app, ", ".join('"%s"' % m for m in members))
+        else:
+            ws = '[workspace]\nresolver = "2"\nmembers = [%s]\n\n[profile.dev]\nopt-level = 0\ndebug = 0\nincremental = false\n' % ", ".join('"%s"' % m for m in members)
         write_if_changed(os.path.join(self.dir, "Cargo.toml"), ws)
         lock = os.path.join(self.dir, "Cargo.lock")
         if not os.path.exists(lock):
